@@ -529,6 +529,7 @@ type traceEv struct {
 }
 
 type wStats struct {
+	groupsObserved                        int
 	groups, multi, handoffs, failedGroups int
 	racer                                 bool
 }
@@ -627,6 +628,39 @@ func runWriters(c *WCase) (st wStats, err error) {
 	racerDone := make(chan struct{})
 	writersDone := make(chan struct{})
 	go func() { wg.Wait(); close(writersDone) }()
+	// an observer takes snapshots all along and notes which calls' first keys each one shows: the
+	// members of a write group must appear together
+	var obs []map[string]bool
+	obsDone := make(chan struct{})
+	go func() {
+		defer close(obsDone)
+		defer func() { recover() }() // the racer may close the DB under the observer
+		for len(obs) < 400 {
+			select {
+			case <-writersDone:
+				return
+			default:
+			}
+			snap, e := db.GetSnapshot()
+			if e != nil {
+				return
+			}
+			seen := map[string]bool{}
+			it := snap.NewIterator(nil, nil)
+			for it.Next() {
+				if k := it.Key(); len(k) > 2 && k[len(k)-2] == '.' && k[len(k)-1] == '0' {
+					seen[string(k)] = true
+				}
+			}
+			ok := it.Error() == nil
+			it.Release()
+			snap.Release()
+			if ok {
+				obs = append(obs, seen)
+			}
+			time.Sleep(20 * time.Microsecond)
+		}
+	}()
 	go func() {
 		defer close(racerDone)
 	wait:
@@ -661,6 +695,7 @@ func runWriters(c *WCase) (st wStats, err error) {
 		return st, fmt.Errorf("writers (or the racing %s) did not all return within 40s: a writer was dropped or left waiting\n%s", c.Racer, goroutineDump())
 	}
 	st.racer = c.Racer != "" && c.Racer != "none"
+	<-obsDone
 	fs.Heal()
 	if m := batchTouched.Load(); m != nil {
 		return st, fmt.Errorf("%s (another writer's records were merged into it: writing it again would duplicate that writer)", m)
@@ -795,6 +830,28 @@ func runWriters(c *WCase) (st wStats, err error) {
 			if r := results[k]; r != nil {
 				want += nrec(r)
 			}
+		}
+		// visible together: no snapshot shows some members of the group without the others
+		// (members whose call wrote something under its first key: Put and batch Write)
+		var putters []string
+		for _, k := range append([]string{g.leader}, g.accepted...) {
+			if r := results[k]; r != nil && len(r.keys) > 0 {
+				putters = append(putters, k)
+			}
+		}
+		if len(putters) > 1 {
+			for _, seen := range obs {
+				n := 0
+				for _, k := range putters {
+					if seen[k] {
+						n++
+					}
+				}
+				if n != 0 && n != len(putters) {
+					return st, fmt.Errorf("a snapshot taken during the run shows %d of the %d writers of the group of %s (%v): the group did not become visible at once", n, len(putters), g.leader, putters)
+				}
+			}
+			st.groupsObserved++
 		}
 		if g.published == 1 && g.pubRecords != want {
 			return st, fmt.Errorf("the group of %s (merged: %v) published %d records, its members wrote %d: a writer's records were duplicated or dropped", g.leader, g.accepted, g.pubRecords, want)
